@@ -1,0 +1,25 @@
+/*
+ * Verification hooks (compiled in only with -DTBOX_VERIF_HOOKS).
+ * With the guard off this header declares nothing.
+ */
+#ifndef TBOX_EVENT_VERIF_HOOKS_H_20261002
+#define TBOX_EVENT_VERIF_HOOKS_H_20261002
+
+#ifdef TBOX_VERIF_HOOKS
+#include <cstdint>
+
+namespace tbox {
+namespace event {
+namespace verif {
+
+//! Function that replaces the steady clock (milliseconds); nullptr = real clock
+using SteadyClockMsFunc = uint64_t (*)();
+void SetSteadyClockMs(SteadyClockMsFunc func);
+SteadyClockMsFunc GetSteadyClockMsFunc();
+
+}
+}
+}
+#endif //TBOX_VERIF_HOOKS
+
+#endif //TBOX_EVENT_VERIF_HOOKS_H_20261002
